@@ -306,6 +306,10 @@ def gen_op(rng, tables, optional=True):
             return None
         src = rng.sample(anycols, rng.randrange(1, min(3, len(anycols) + 1)))
         mp = {c: c + "_r" for c in src if c + "_r" not in cols}
+        if len(anycols) >= 2 and rng.random() < 0.3:
+            # new names that are old names of other mapped columns: a swap, or a chain a->b, b->c
+            a, b = rng.sample(anycols, 2)
+            mp = {a: b, b: a} if rng.random() < 0.5 else {a: b, b: b + "_r"}
         if not mp:
             return None
         ign = rng.random() < 0.5
@@ -423,7 +427,12 @@ def break_ops(rng, ops):
     bad = copy.deepcopy(ops)
     why = rng.choice(["not-a-list", "empty-list", "op-not-dict", "missing-field", "extra-field", "unknown-operation",
                       "missing-required-parameter", "wrong-type-parameter", "extra-parameter", "op-specific",
-                      "op-specific-then-good-one"])
+                      "op-specific-then-good-one", "remap-entry-too-long"])
+    if why == "remap-entry-too-long":
+        op = dict(operation="remap_columns", description="generated",
+                  parameters=dict(source_columns=["trial_type"], destination_columns=["kind"],
+                                  map_list=[["go", "a", "extra"], ["stop", "b"]], ignore_missing=True))
+        return bad + [op], "op-specific"
     if why == "op-specific-then-good-one":
         # an operation with an error only its own check finds, followed later by a correct operation of the same type
         good = {"factor_column": dict(operation="factor_column", description="generated",
@@ -469,7 +478,10 @@ def break_ops(rng, ops):
             op["parameters"]["factor_values"] = ["a", "b"]
             op["parameters"]["factor_names"] = ["only_one"]
         elif kind == "remap_columns":
-            op["parameters"]["map_list"] = [x[:-1] for x in op["parameters"]["map_list"]] or [["x"]]
+            if rng.random() < 0.5:
+                op["parameters"]["map_list"] = [x[:-1] for x in op["parameters"]["map_list"]] or [["x"]]
+            else:
+                op["parameters"]["map_list"] = [list(x) + [x[-1]] for x in op["parameters"]["map_list"]] or [["x"]]
         elif kind == "merge_consecutive":
             op["parameters"]["match_columns"] = [op["parameters"]["column_name"]]
         else:
